@@ -40,7 +40,10 @@ func procEnv(ctx string) string {
 	if ctx == "p" {
 		return "match=s:x58,matchLength=n:1"
 	}
-	return "match=s:x58,matchLength=n:1,matchNumber=n:1"
+	// executeReplaceProcess: every string entry of the replacer's table (captures and the per-match built-ins), then
+	// match, matchLength and matchNumber (a number) — for `replace all 'X' with f` on "aXb"
+	return "match=s:x58,matchLength=n:1,matchNumber=n:1,totalMatches=s:x31,startOffset=s:x31,endOffset=s:x32," +
+		"lineNumber=s:x31,columnNumber=s:x32,value=s:x58,filename=s:x74657874"
 }
 
 func safeParse(src string) (out string) {
@@ -489,6 +492,16 @@ func genC11(r *rand.Rand, tier string, st *Stats) []Case {
 	for _, e := range []string{"matchNumber + 1", "matchNumber + '1'", "matchNumber == 1", "matchNumber * 2", "head matchNumber",
 		"nosuch + 'x'", "nosuch == ''", "matchLength + 1", "match + match", "matchLength * matchLength"} {
 		g.proc("mv", "t", "if "+e+" == "+e+" then return "+e+" end return 'F'", map[string]string{"cell": "vars"})
+	}
+	// names that are NOT in the run-time environment (never set; a built-in of the other context), read AFTER earlier
+	// statements have evaluated something else: an unset name is the empty string, whatever was evaluated before
+	for _, pre := range []string{"set n to 5", "set b to 1 < 2", "set s to 'abc'", "debug 7", "if 1 < 2 then set q to 9 end",
+		"if false then return 'no' end", "set n to 5 set m to n * 2", "loop set k to 3 break end"} {
+		for _, e := range []string{"nosuch + 'x'", "nosuch - 1", "'<' + nosuch + '>'", "head nosuch", "nosuch == ''", "0 + nosuch",
+			"nosuch + nosuch", "other * 3"} {
+			g.proc("un", "t", pre+" if "+e+" == "+e+" then return "+e+" end return 'F'", map[string]string{"cell": "vars"})
+			g.proc("un", "p", pre+" return ( "+e+" ) == ( "+e+" )", map[string]string{"cell": "vars"})
+		}
 	}
 	// (B) random well-typed trees, both renderings, value + syntax tree
 	ntrees := sizes(tier, 1500, 100000)
